@@ -72,6 +72,18 @@ func (a *Actor) WorkShare(t *rapid.T) (*types.WorkObjectHeader, error) {
 	}
 	o.Data = []byte{o.Lock}
 	if len(a.Contracts) > 0 && rapid.IntRange(0, 3).Draw(t, "wsLayout") == 0 {
+		// half of the contract-layout shares pay the same "sticky" tranche as the sticky block
+		// rewards of DrawMineOpts (same contract, miner, lock byte): a block that carries such a
+		// share next to its own sticky reward credits one tranche several times
+		if rapid.Bool().Draw(t, "wsSticky") {
+			o.Coinbase = a.quai[5].Addr
+			o.Lock = 0
+			if a.ZoneNumber()+1 >= 2*params.BlocksPerMonth {
+				o.Lock = 1
+			}
+			o.Data = []byte{o.Lock}
+			a.label("ws_sticky_tranche")
+		}
 		o.Data = append(o.Data, a.Contracts[0].Bytes()...)
 	}
 	heads, back := a.Heads, 0
